@@ -87,6 +87,52 @@ def run(chk, tier):
                 name, exc = type(e).__name__, True
             events.append({"tid": tid, "mx": zbig(mx), "mn": zbig(mn), "dtype": name, "exc": exc})
             raw[tid] = (mx, mn, name)
+    # the call sites the property names: the dtype of dense output (to_array) and the INDX coordinate word size
+    import io, os, shutil, struct
+    from catii.iindexes import iindex
+    from catii.indxio import IndxIO
+    from ..drivers.index import canonical
+    callers = {}
+    los = [0, -1, -128, -129, -32768, -32769, -2 ** 31, -2 ** 31 - 1]
+    his = [0, 1, 127, 128, 255, 256, 32767, 32768, 65535, 65536, 2 ** 31 - 1, 2 ** 31, 2 ** 32 - 1, 2 ** 32]
+    for lo in los:
+        for hi in his:
+            for common_is in ("lo", "hi", "mid"):
+                vals = [lo, hi, 0]
+                common = {"lo": lo, "hi": hi, "mid": 0}[common_is]
+                idx = canonical(iindex, numpy.array(vals, dtype=object), common)
+                tid += 1
+                try:
+                    name, exc = idx.to_array().dtype.name, False
+                except Exception as e:  # noqa
+                    name, exc = type(e).__name__, True
+                mx, mn = max(vals), min(vals + [0])
+                events.append({"tid": tid, "mx": zbig(mx), "mn": zbig(mn), "dtype": name, "exc": exc})
+                raw[tid] = (mx, mn, name)
+                callers[tid] = "to_array() of values %s with common %s" % (vals, common)
+    wd = core.workdir("c19")
+    try:
+        classes = [1, 255, 256, 65535, 65536, 2 ** 32 - 1, 2 ** 32, 2 ** 63 - 1]
+        for cmax in classes:
+            for common in classes:
+                for nent in (0, 1, 2):
+                    entries = {(cmax if j == 0 else 1, j): numpy.array([j], dtype=numpy.uint32) for j in range(nent)}
+                    path = os.path.join(str(wd), "w.indx")
+                    tid += 1
+                    mx = max([common] + [c for k in entries for c in k])
+                    try:
+                        with open(path, "wb") as f:
+                            IndxIO.save(f, entries, common, numpy.dtype(numpy.uint32))
+                        iws = open(path, "rb").read()[21]
+                        name, exc = "uint%d" % (8 * iws), False
+                    except Exception as e:  # noqa
+                        name, exc = type(e).__name__, True
+                    events.append({"tid": tid, "mx": zbig(mx), "mn": zbig(0), "dtype": name, "exc": exc})
+                    raw[tid] = (mx, 0, name)
+                    callers[tid] = "INDX coordinate word size for %d entries, largest coordinate %d, common %d" % (nent, cmax if nent else 0, common)
+    finally:
+        shutil.rmtree(wd, ignore_errors=True)
+    chk.extra["call_site_events"] = len(callers)
     B = 20000
     indomain = 0
     for k in range(0, len(events), B):
@@ -102,8 +148,10 @@ def run(chk, tier):
             if v != "ok":
                 if v == "bad-event":
                     raise core.MachineryFailure("bad event %s" % (raw[t],))
-                chk.violation("fit_dtype:%s" % v, "fit_dtype(max=%d, min=%d) -> %s : %s" % (mx, mn, name, v),
-                              {"max": mx, "min": mn, "got": name, "clause": v})
+                where = callers.get(t)
+                chk.violation(("call-site:%s" % v) if where else ("fit_dtype:%s" % v),
+                              "%s -> %s : %s" % (where or ("fit_dtype(max=%d, min=%d)" % (mx, mn)), name, v),
+                              {"max": mx, "min": mn, "got": name, "clause": v, "call_site": where})
     chk.traces = indomain
     chk.evaluations = len(events)
     chk.exhaustive = True
